@@ -65,6 +65,7 @@ fn check_state(
     seed_texts: &[(String, String)],
 ) -> Option<Outcome> {
     s.states += 1;
+    heartbeat();
     let case = || {
         json!({
             "seed": texts_json(seed_texts)["modules"],
@@ -75,7 +76,16 @@ fn check_state(
     let last = trail.last().copied().unwrap_or("seed");
     match emitted(texts) {
         Err(why) => {
-            let class: String = why.chars().take_while(|c| *c != '(' && *c != '\n').take(40).collect();
+            let mut class: String = why.chars().take_while(|c| *c != '(' && *c != '\n').take(40).collect();
+            if last.starts_with("move declarations") {
+                // Is the extracted module rejected on its own, or only its importer?
+                let alone: Vec<(String, String)> = texts.iter().filter(|(n, _)| n.starts_with("zx") || n.starts_with("zy")).cloned().collect();
+                let own = alone.iter().any(|(n, _)| {
+                    let files = pipeline::files_of(texts);
+                    matches!(guard(|| pipeline::load(&files, n)), Ok(Err(_)))
+                });
+                class.push_str(if own { " | the extracted module is rejected on its own" } else { " | only the importer is rejected" });
+            }
             Some(Outcome::bad(
                 "rewrite-rejected",
                 format!("rewritten program not accepted | {last} | {class}"),
@@ -124,6 +134,7 @@ pub fn judge_seed(seed: &Program, depth: usize, sink: Option<&mut Sink>) -> Outc
     'bfs: while let Some((prog, trail)) = queue.pop_front() {
         let texts = print(&prog).texts;
         // text-level trivia insertion: terminal transitions, from the seed
+        heartbeat();
         if trail.len() < depth {
             let trivia = if trail.is_empty() { rewrite::trivia_variants(&texts) } else { vec![] };
             for (rule, t) in trivia {
@@ -246,7 +257,8 @@ impl Engine for C05 {
         }
     }
     fn case_budget_ms(&self) -> u64 {
-        120_000
+        // per state (the search calls `heartbeat` before each run of the compiler)
+        30_000
     }
     fn state_counters(&self, m: &Stats) -> Option<(u64, u64, u64)> {
         let s = *m.counters.get("states").unwrap_or(&0);
